@@ -222,4 +222,11 @@ class ChargingStation(VehicleState):
         :return: an exception due to failure or an optional updated simulation
         """
 
+        vehicle = sim.vehicles.get(self.vehicle_id)
+        mechatronics = env.mechatronics.get(vehicle.mechatronics_id) if vehicle else None
+        if vehicle is not None and mechatronics is not None and mechatronics.is_full(vehicle):
+            # plugged in with nothing to add (e.g. arrived or left the queue already full):
+            # a no-op here lets the terminal condition unplug the vehicle at its next update
+            return None, sim
+
         return charge(sim, env, self.vehicle_id, self.station_id, self.charger_id)
